@@ -60,6 +60,9 @@ func World(prop string, r *rng.R, n int) Result {
 	}
 	seen := map[string]bool{}
 	stats := map[string]int{}
+	// open finding 17 (a gas paymaster is paid out of coins lying on the orbiter account): its witness is the
+	// first history of the two families whose property it contradicts, so that every run meets it
+	wr.pinFirst = prop == "C11" || prop == "C02"
 	for len(res.Cases) < n {
 		cr := r.Fork()
 		c, fails := wr.runCase(prop, p, cr, stats)
@@ -172,11 +175,41 @@ func (wr *worldRunner) runCase(prop string, p profile, r *rng.R, stats map[strin
 			ops = append(ops, planned{world.Op{Kind: "msg", Msg: m}, pktInfo{shape: "msg/" + m.Kind}})
 		}
 	}
+	pinned := wr.pinFirst
+	wr.pinFirst = false
 	for i := 0; i < nops; i++ {
 		x := r.Intn(p.wRecv + p.wMsg + p.wDeposit + p.wQuery)
+		pin := pinned && i == 0
+		if pin {
+			x = 0
+		}
 		switch {
 		case x < p.wRecv:
 			pkt, info := g.genPacket()
+			if pin {
+				for try := 0; try < 2000 && !(info.shape == "valid" && info.spec != nil && pkt.ICS != nil && !info.spec.swap && info.spec.fwd.kind == "hyp" &&
+					info.denom == sim.USDC && info.expectOK); try++ {
+					pkt, info = g.genPacket()
+				}
+				for _, igp := range wr.w.S.IGPs {
+					if igp.Denom != sim.USDC && info.spec != nil {
+						f := &info.spec.fwd
+						f.hook, f.gasHook, f.gas = []byte(igp.ID), true, big.NewInt(5)
+						f.feeDenom, f.feeAmt = igp.Denom, igp.Quote(f.gas)
+						info.shape += "/gas-hook-paid-from-prior-balance"
+						info.expectOK = false
+						ops = append(ops, planned{world.Op{Kind: "deposit", To: sim.OrbiterAddr(), Denom: igp.Denom, Amount: big.NewInt(1000)}, pktInfo{shape: "deposit"}})
+					}
+				}
+			} else if info.spec != nil && info.spec.fwd.gasHook && info.spec.rawMem == nil && p.wDeposit > 0 && r.Chance(50) {
+				// the orbiter account happens to hold coins of the paymaster's denomination (anybody can send them there)
+				for _, igp := range wr.w.S.IGPs {
+					if igp.ID == string(info.spec.fwd.hook) {
+						amt := new(big.Int).Add(igp.Quote(info.spec.fwd.gas), big.NewInt(int64(r.Intn(50))))
+						ops = append(ops, planned{world.Op{Kind: "deposit", To: sim.OrbiterAddr(), Denom: igp.Denom, Amount: amt}, pktInfo{shape: "deposit"}})
+					}
+				}
+			}
 			if info.spec != nil && pkt.ICS != nil && info.spec.rawMem == nil && info.spec.fwd.kind == "hyp" && info.denom != "" && p.wDeposit > 0 && r.Chance(10) {
 				// a Hyperlane forwarding that names the collateral token of ANOTHER denomination, while the orbiter account
 				// happens to hold enough of that denomination (anybody can send it there)
@@ -223,7 +256,7 @@ func (wr *worldRunner) runCase(prop string, p profile, r *rng.R, stats map[strin
 					}
 				}
 			}
-			if r.Chance(p.pCallback) && pkt.ICS != nil {
+			if !pin && r.Chance(p.pCallback) && pkt.ICS != nil {
 				// a packet Noble sent earlier: its acknowledgement or timeout comes back
 				op.Callback = rng.Pick(r, []string{"ack-ok", "ack-err", "timeout"})
 				op.Pkt = world.Packet{SrcPort: dstPort, SrcChan: rng.Pick(r, dstChans), DstPort: srcPort, DstChan: srcChan,
@@ -231,7 +264,8 @@ func (wr *worldRunner) runCase(prop string, p profile, r *rng.R, stats map[strin
 						Sender: rng.Pick(r, []string{wr.a.users[0].Bech, sim.OrbiterAddr().String(), "noble1invalid"}), Receiver: "cosmos1xyz", Memo: pkt.ICS.Memo}}
 				info = pktInfo{shape: "callback/" + op.Callback}
 			}
-			if info.orbiter && r.Chance(p.pFault) {
+			if pin {
+			} else if info.orbiter && r.Chance(p.pFault) {
 				k := r.Intn(9)
 				op.Plan = make([]bool, k+1)
 				for j := range op.Plan {
@@ -514,7 +548,19 @@ func (o *oracle) fail(sig, what string, desc string) Failure {
 	return Failure{What: what, Sig: sig, Prop: sigProp[sig], Case: map[string]any{"op": desc}}
 }
 
+// check judges one operation; the failures of a packet whose forwarding goes through a gas paymaster say so
+// (known_findings.json matches on it).
 func (o *oracle) check(op world.Op, info pktInfo, obs world.OpObs) []Failure {
+	fs := o.check0(op, info, obs)
+	if info.spec != nil && info.spec.fwd.gasHook {
+		for i := range fs {
+			fs[i].Case["gas_hook"] = "charges"
+		}
+	}
+	return fs
+}
+
+func (o *oracle) check0(op world.Op, info pktInfo, obs world.OpObs) []Failure {
 	var fs []Failure
 	desc := describeOp(op, info, obs)
 	nd := len(o.wr.w.Denoms)
@@ -777,15 +823,17 @@ func (o *oracle) checkMoves(op world.Op, info pktInfo, obs world.OpObs, desc str
 		if gotSup.Cmp(supplyExp) != 0 {
 			fs = append(fs, o.fail("supply-delta", fmt.Sprintf("supply of %s changed by %s, expected %s", info.denom, gotSup, supplyExp), desc))
 		}
-		// other denoms: untouched
-		for od := 0; od < nd; od++ {
-			if od == d {
-				continue
-			}
-			for i := range exp {
-				if o.bal(obs.After, i, od).Cmp(o.bal(obs.Before, i, od)) != 0 {
-					fs = append(fs, o.fail("other-denom-touched", fmt.Sprintf("balance of %s in %s changed", o.wr.w.Accts[i].Name, o.wr.w.Denoms[od]), desc))
-				}
+	}
+	// other denominations: no tracked account changes (whoever the fee recipients are)
+	for od := 0; od < nd; od++ {
+		if od == d {
+			continue
+		}
+		for i := range exp {
+			if o.bal(obs.After, i, od).Cmp(o.bal(obs.Before, i, od)) != 0 {
+				f := o.fail("other-denom-touched", fmt.Sprintf("balance of %s in %s changed", o.wr.w.Accts[i].Name, o.wr.w.Denoms[od]), desc)
+				f.Case["account"] = o.wr.w.Accts[i].Name
+				fs = append(fs, f)
 			}
 		}
 	}
